@@ -4,6 +4,7 @@
 //! constructors, runs `State::run` from /repo's working tree under `catch_unwind`, and prints one
 //! canonical S-expression per program describing everything observable: errors, global tables,
 //! global stack and, for every function, the complete block tree.
+mod mirror;
 mod sx;
 
 use semantic_analyzer::ast;
@@ -124,6 +125,7 @@ fn ident(s: &Sx) -> ast::Ident<'static> {
 }
 
 thread_local! {
+    static SOURCE_FNS: RefCell<Vec<String>> = const { RefCell::new(Vec::new()) };
     static IDENT_DECODE: RefCell<Option<String>> = const { RefCell::new(None) };
     static NOBUILD: std::cell::Cell<bool> = const { std::cell::Cell::new(false) };
 }
@@ -527,7 +529,7 @@ fn d_struct(o: &mut String, st: &StructTypes) {
     o.push(')');
 }
 
-fn d_ty(o: &mut String, t: &Type) {
+pub(crate) fn d_ty(o: &mut String, t: &Type) {
     match t {
         Type::Primitive(p) => write!(o, "(p {})", d_prim_ty(p)).unwrap(),
         Type::Struct(st) => d_struct(o, st),
@@ -539,7 +541,7 @@ fn d_ty(o: &mut String, t: &Type) {
     }
 }
 
-fn d_pv(o: &mut String, v: &PrimitiveValue) {
+pub(crate) fn d_pv(o: &mut String, v: &PrimitiveValue) {
     use PrimitiveValue as V;
     match v {
         V::U8(n) => write!(o, "(pv u8 {n})"),
@@ -721,12 +723,15 @@ fn d_instr(o: &mut String, i: &SemanticStackContext<Ins>, prog: &Main) {
             }
             o.push_str(") ");
             d_ty(o, &fn_decl.result_type);
-            // the body mirror is compared in place: it must be the conversion of a declaration
-            // of that name in the program
-            let ok = prog.iter().any(|m| match m {
-                ast::MainStatement::Function(f) => &FunctionStatement::from(f.clone()) == fn_decl,
-                _ => false,
-            });
+            // the body mirror is compared in place: printed from the semantic types, it must be
+            // the text of a function of the program (printed independently from the source; a
+            // comparison with `FunctionStatement::from(f)` would hide a wrong conversion)
+            let m = mirror::mirror_fn(fn_decl);
+            let ok = SOURCE_FNS.with(|c| c.borrow().iter().any(|s| s == &m))
+                && prog.iter().any(|m| match m {
+                    ast::MainStatement::Function(f) => &FunctionStatement::from(f.clone()) == fn_decl,
+                    _ => false,
+                });
             write!(o, " {})", u8::from(ok)).unwrap();
         }
         S::Constant { const_decl } => {
@@ -1084,7 +1089,11 @@ fn work(mode: &str, input: &str, output: &str) {
         }
         IDENT_DECODE.with(|c| *c.borrow_mut() = None);
         NOBUILD.with(|c| c.set(false));
-        let built = std::panic::catch_unwind(|| program(&sx::parse(&line)));
+        let built = std::panic::catch_unwind(|| {
+            let tree = sx::parse(&line);
+            SOURCE_FNS.with(|c| *c.borrow_mut() = mirror::source_fns(&tree));
+            program(&tree)
+        });
         let Ok(prog) = built else {
             eprintln!("harness: malformed input at line {}", lineno + 1);
             std::process::exit(3);
